@@ -246,6 +246,57 @@ Proof.
   repeat split; auto; lia.
 Qed.
 
+(* the caller's arrays (and the draw stream) as they stand when iteration i starts *)
+Fixpoint state_at {R : Type} (its : list iter_in) (i : nat) (draws : list nat) (st : lstate R) : lstate R :=
+  match i, its with
+  | S k, it :: rest =>
+    let '(draws1, st1) :=
+      err_loop (it_proto it) (it_errs it) (count_non_prototypes (it_proto it)) draws st in
+    state_at rest k draws1 st1
+  | _, _ => st
+  end.
+
+Lemma learn_loop_snap : forall {R : Type} (its : list iter_in) t n_it max_acc best snap draws (st : lstate R),
+  let res := learn_loop its t n_it max_acc best snap draws st in
+  (r_best res = best /\ r_snap res = snap) \/
+  (exists i, r_best res = t + i /\
+             r_snap res = (l_Xt (state_at its i draws st), l_Yt (state_at its i draws st))).
+Proof.
+  induction its as [|it rest IH]; intros t n_it max_acc best snap draws st; cbn [learn_loop].
+  - left; split; reflexivity.
+  - destruct (err_loop (it_proto it) (it_errs it) (count_non_prototypes (it_proto it)) draws st)
+      as [draws1 st1] eqn:Ee.
+    set (ub := Nat.eqb t 0 || Z.ltb max_acc (it_acc it)).
+    assert (Hnow : ((if ub then t else best) = best /\ (if ub then (l_Xt st, l_Yt st) else snap) = snap) \/
+                   ((if ub then t else best) = t + 0 /\
+                    (if ub then (l_Xt st, l_Yt st) else snap) = (l_Xt st, l_Yt st))).
+    { destruct ub; [right | left]; split; auto. }
+    destruct (it_small it || Nat.eqb (S t) n_it).
+    + cbn [r_best r_snap]. destruct Hnow as [Hn|[Hb Hs]]; [left; exact Hn|].
+      right. exists 0. split; auto.
+    + cbn zeta.
+      destruct (IH (S t) n_it (if ub then it_acc it else max_acc) (if ub then t else best)
+                   (if ub then (l_Xt st, l_Yt st) else snap) draws1 st1) as [[Hb Hs]|(i & Hb & Hs)].
+      * rewrite Hb, Hs. destruct Hnow as [Hn|[Hb' Hs']]; [left; exact Hn|].
+        right. exists 0. split; auto.
+      * right. exists (S i). split; [rewrite Hb; lia|].
+        rewrite Hs. cbn [state_at]. rewrite Ee. reflexivity.
+Qed.
+
+(* the classifier kept in the object (deepcopy of self at the best iteration) was fitted on the
+   training set exactly as it stood when iteration r_best started *)
+Theorem learn_snapshot : forall {R : Type} (its : list iter_in) (n_iterations : nat) (draws : list nat)
+    (st : lstate R),
+  let res := learn its n_iterations draws st in
+  let sb := state_at its (r_best res) draws st in
+  r_snap res = (l_Xt sb, l_Yt sb).
+Proof.
+  intros R its n_it draws st res sb. unfold sb, res, learn.
+  destruct (learn_loop_snap its 0 n_it 0%Z 0 (l_Xt st, l_Yt st) draws st) as [[Hb Hs]|(i & Hb & Hs)].
+  - rewrite Hb, Hs. destruct its; reflexivity.
+  - rewrite Hb, Hs. reflexivity.
+Qed.
+
 (* the loop runs to n_iterations unless the numeric stop test fires (or inputs run out) *)
 Lemma learn_iters_bound : forall {R : Type} (its : list iter_in) n_it t max_acc best snap draws (st : lstate R),
   t < n_it -> r_iters (learn_loop its t n_it max_acc best snap draws st) <= n_it.
